@@ -141,6 +141,43 @@ func checkC06(p *core.Program, r *core.Report) {
 			r.OK(R1, en+" "+k, p.Pos(entry.Pos()), fmt.Sprintf("on all %d paths", npaths))
 		}
 	}
+	// routing marker: which frames count as SPINE data is decided by the one member name every datagram has
+	var router *ssa.Function
+	for _, b := range entry.Blocks {
+		if iff := core.BlockIf(b); iff != nil && router == nil {
+			v, _ := core.Truth(iff.Cond, 0)
+			if c, ok := v.(*ssa.Call); ok {
+				if callee := c.Call.StaticCallee(); callee != nil && p.PkgShort(callee) == "ship" && callee.Signature.Results().Len() == 1 {
+					for _, a := range c.Call.Args {
+						if len(entry.Params) > 1 && core.Canon(a) == ssa.Value(entry.Params[1]) {
+							router = callee
+						}
+					}
+				}
+			}
+		}
+	}
+	if router == nil {
+		r.Fail(R1, en+" routing predicate", p.Pos(entry.Pos()), "no SHIP-vs-SPINE routing predicate on the incoming frame found")
+	} else {
+		consts := map[string]bool{}
+		core.EachInstr(router, func(in ssa.Instruction) {
+			for _, op := range in.Operands(nil) {
+				if *op == nil {
+					continue
+				}
+				if c, ok := strConst(*op); ok {
+					consts[c] = true
+				}
+			}
+		})
+		key := "routing predicate " + shortFn(p.FnName(router)) + " marker"
+		if len(consts) == 1 && consts["datagram"] {
+			r.OK(R1, key, p.Pos(router.Pos()), "frames are SPINE data iff they contain the member name 'datagram'")
+		} else {
+			r.Fail(R1, key, p.Pos(router.Pos()), fmt.Sprintf("the SHIP-vs-SPINE routing depends on the text constants %v instead of only the 'datagram' member name: datagrams whose content matches another constant are routed to the handshake handler and silently dropped", keysOf(consts)))
+		}
+	}
 	// fresh decode target in the parse function
 	var parseFn *ssa.Function
 	core.EachInstr(entry, func(in ssa.Instruction) {
@@ -383,6 +420,39 @@ func checkC06(p *core.Program, r *core.Report) {
 				r.OK(R3, name+" consumer started once", p.Pos(cons.Pos()), "one go statement, not in a loop")
 			} else {
 				r.Fail(R3, name+" consumer started once", p.Pos(cons.Pos()), "the consumer goroutine is not started by exactly one go statement outside loops")
+			}
+			// the enqueue may only be abandoned for the closing connection: no timeout / default arm
+			closedCh := map[*types.Var]bool{}
+			for g, gus := range uses {
+				for _, u := range gus {
+					if u.kind == "close" {
+						closedCh[g] = true
+					}
+				}
+			}
+			for _, snd := range sends {
+				key := name + " enqueue in " + p.FnName(snd.fn) + " is only abandoned on close"
+				if snd.sel == nil {
+					r.OK(R3, key, p.Pos(snd.in.Pos()), "plain send")
+					continue
+				}
+				bad := ""
+				if !snd.sel.Blocking {
+					bad = "a default arm"
+				}
+				for _, st := range snd.sel.States {
+					if st.Dir != types.RecvOnly {
+						continue
+					}
+					if g := chanField(st.Chan); g == nil || !closedCh[g] {
+						bad = "an arm that is not the connection's close channel (e.g. a timeout)"
+					}
+				}
+				if bad == "" {
+					r.OK(R3, key, p.Pos(snd.in.Pos()), "the only way out besides enqueueing is the close channel")
+				} else {
+					r.Fail(R3, key, p.Pos(snd.in.Pos()), "the enqueue select has "+bad+": under back pressure an accepted datagram is dropped while the connection stays open and later ones go through (gap at the peer)")
+				}
 			}
 			var common core.LockSet
 			for _, s := range sends {
